@@ -106,7 +106,8 @@ claim("C04", "other",
 claim("C05", "other",
       "Sequential protocol facts only (no schedule is explored): every function under contract returns with exactly the locks it was entered with, never re-acquires a lock it holds, and holds no gkvlite lock while a StoreFile method or callback runs "
       "(except ItemDecRef inside freeNodeUnlocked, by design); rootAddRef reads and bumps the root under rootLock once; the version stays pinned for the whole visit; an item published in a slot is never written in place (frame of itemLoc.read); collNames is sorted and duplicate-free. "
-      "BOUNDED (stand-in, not a proof) for the schedule-level clause: one mutating goroutine (Set/Delete, with Flush + EvictSomeItems for file-backed stores) runs against three reader goroutines on the real code; every whole ascending visit and every point lookup a reader performs must equal the collection's state after some mutation step inside the reader's own start/end window (no mixture of versions), with a 10 s deadlock watchdog: 24 pseudo-random histories of 150 steps (thorough: 120 of 400).",
+      "BOUNDED (stand-in, not a proof) for the schedule-level clause: one mutating goroutine (Set/Delete, with Flush + EvictSomeItems for file-backed stores) runs against three reader goroutines on the real code; every whole ascending visit and every point lookup a reader performs must equal the collection's state after some mutation step inside the reader's own start/end window (no mixture of versions), with a 10 s deadlock watchdog: 24 pseudo-random histories of 150 steps (thorough: 120 of 400)."
+      + "Plus forced schedules (no reliance on the scheduler): a block enumeration (VisitItemsAscendBlockEx, VisitItemsRandom) parked through the ItemDecRef callback between counting the items and looking up the first one while the single mutator empties, shrinks or grows the collection (this found D14: both panicked on a nil item; repaired). ",
       A_COMMON + " Linearizability in general, lost updates and the benign-ness of the unsynchronised lazy caches are NOT decided (family limit); the bounded harness does not enumerate scheduler interleavings.")
 
 claim("C06", "proof",
